@@ -24,10 +24,17 @@ thread_local! {
 }
 
 fn classify(msg: &str) -> &'static str {
-    if msg.contains("Internal representation exceeded") {
+    // the library's own panics carry the Display text of a `DecimalError` variant: compare with what the crate under test prints
+    // for that variant NOW (a reworded message is not a behavioural change), the literal texts are only a fallback
+    let ovf = fpdec::DecimalError::InternalOverflow.to_string();
+    let dz = fpdec::DecimalError::DivisionByZero.to_string();
+    let nf = fpdec::DecimalError::MaxNFracDigitsExceeded.to_string();
+    if (!ovf.is_empty() && msg.contains(ovf.trim_end_matches('.'))) || msg.contains("Internal representation exceeded") {
         "overflow"
-    } else if msg.contains("Division by Zero") {
+    } else if (!dz.is_empty() && msg.contains(dz.trim_end_matches('.'))) || msg.contains("Division by Zero") {
         "divzero"
+    } else if !nf.is_empty() && msg.contains(nf.trim_end_matches('.')) {
+        "nfrac"
     } else if msg.contains("attempt to divide by zero")
         || msg.contains("remainder with a divisor of zero")
     {
